@@ -612,6 +612,7 @@ func CheckMain(id, tier string, seed int64) int {
 		}
 	}
 	flaky := 0
+	slowCases := 0
 	hangSigs := 0
 	var skippedHangs []string
 	for _, s := range sigs {
@@ -652,6 +653,15 @@ func CheckMain(id, tier string, seed int64) int {
 				if v.Desc == nil {
 					v.Desc = descH
 				}
+			}
+		}
+		if ok == 0 && v.Crash && strings.HasSuffix(s, "|hang") {
+			// the watchdog stopped the worker, but the same case runs to completion when it is alone: a slow case on a
+			// loaded machine, not a hang. It is evaluated here once more, alone, so that nothing it has to say is lost.
+			if sigs, _, crash := r.runOneMode(v.G, v.I, "only"); crash == "" && len(sigs) == 0 {
+				slowCases++
+				fmt.Fprintf(os.Stderr, "NOTE %s: group %d (%s) index %d exceeded the no-progress limit under load and completes without findings when run alone\n", id, v.G, r.groups[v.G], v.I)
+				continue
 			}
 		}
 		if ok != nconf {
@@ -696,6 +706,7 @@ func CheckMain(id, tier string, seed int64) int {
 		"distinct_outcomes":   len(agg.classes),
 		"outcome_classes":     topClasses(agg.classes, 40),
 		"worker_deaths":       agg.crashes,
+		"slow_cases_rerun":    slowCases,
 		"known_findings_hit":  knownHit,
 		"unknown_violations":  unknown,
 		"budget_s":            budget,
